@@ -30,6 +30,31 @@
 #include "oomd/util/ScopeGuard.h"
 #include "oomd/util/Util.h"
 
+namespace {
+// Like Util::writeFull() but with send(MSG_NOSIGNAL): writing to a client
+// that already went away must fail with EPIPE, not raise a SIGPIPE that
+// kills the daemon.
+ssize_t sendFull(int fd, const char* buf, size_t count) {
+  ssize_t total = 0;
+  while (count > 0) {
+    ssize_t r = ::send(fd, buf, count, MSG_NOSIGNAL);
+    if (r == -1) {
+      if (errno == EINTR) {
+        continue;
+      }
+      return r;
+    }
+    if (r == 0) {
+      break;
+    }
+    total += r;
+    buf += r;
+    count -= r;
+  }
+  return total;
+}
+} // namespace
+
 namespace Oomd {
 
 Stats::Stats(const std::string& stats_socket_path)
@@ -224,7 +249,7 @@ void Stats::processMsg(int sockfd) {
   }
   root["body"] = body;
   std::string ret = root.toStyledString();
-  if (Util::writeFull(sockfd, ret.c_str(), strlen(ret.c_str())) < 0) {
+  if (sendFull(sockfd, ret.c_str(), strlen(ret.c_str())) < 0) {
     OLOG << "Stats server error: writing to socket: "
          << ::strerror_r(errno, err_buf.data(), err_buf.size());
   }
